@@ -251,6 +251,11 @@ def check(ctx):
     from ._claims import check_claims
 
     check_claims(ctx)
+    # ---------------- MaybeAlignPartitions: "already aligned" needs KNOWN, equal divisions
+    mal = model.klass(EX, "MaybeAlignPartitions").own_methods["_lower"]
+    conds = [n for n in ast.walk(mal) if isinstance(n, ast.Call) and call_name(n) == "all" and "divisions == df.divisions" in unparse(n)]
+    ok = len(conds) == 1 and "df.known_divisions" in unparse(conds[0])
+    ctx.ob("DOM.align.known-divisions", mal, "frames are combined partition by partition without alignment only if their divisions are equal AND known", ok, "" if ok else "two frames with unknown divisions (None == None) are treated as aligned: rows are paired by position, not by index")
 
 
 VARIANTS = [
